@@ -108,6 +108,15 @@ fn amd64_ctx_section(vals: &[u64]) -> Section {
     s.append_repeated(0, 512).append_repeated(0, 16 * 26).append_repeated(0, 8 * 6)
 }
 
+/// raw CONTEXT_PPC64: flags, srr0, srr1, gpr[32], cr, xer, lr, ctr, vrsave, float_save (264 bytes), vector_save (576 bytes)
+fn ppc64_ctx_section(vals: &[u64]) -> Section {
+    let mut s = Section::with_endian(TEndian::Little).D64(0x0100_0001);
+    for v in vals.iter().take(39) {
+        s = s.D64(*v);
+    }
+    s.append_repeated(0, 264).append_repeated(0, 576)
+}
+
 fn parse_ctx(t: &mut Toks) -> Option<Vec<u64>> {
     match t.str() {
         "-" => None,
@@ -116,6 +125,8 @@ fn parse_ctx(t: &mut Toks) -> Option<Vec<u64>> {
         "X" => Some((0..10).map(|_| t.u64()).collect()),
         // arm64 context (33 registers x0..x28 fp lr sp pc) — T cases only
         "R" => Some((0..33).map(|_| t.u64()).collect()),
+        // ppc64 context (Q cases): srr0 srr1 r0..r31 cr xer lr ctr vrsave
+        "W" => Some((0..39).map(|_| t.u64()).collect()),
         // amd64 context in which only the registers of the bit mask are valid: 18 values = mask, then the 17 registers
         "V" => Some((0..18).map(|_| t.u64()).collect()),
         x => panic!("ctx {}", x),
@@ -175,7 +186,9 @@ fn run_dump(
     let vals = ctxv.clone().unwrap_or(vec![0; 17]);
     let rip = vals[16];
     let rsp = vals[7];
-    let context = if arch == md::ProcessorArchitecture::PROCESSOR_ARCHITECTURE_AMD64 as u16 {
+    let context = if arch == md::ProcessorArchitecture::PROCESSOR_ARCHITECTURE_PPC64 as u16 && vals.len() == 39 {
+        ppc64_ctx_section(&vals)
+    } else if arch == md::ProcessorArchitecture::PROCESSOR_ARCHITECTURE_AMD64 as u16 {
         amd64_ctx_section(&vals)
     } else if arch == md::ProcessorArchitecture::PROCESSOR_ARCHITECTURE_ARM64 as u16 {
         arm64_context(e, rip, rsp)
